@@ -2,8 +2,8 @@
    y, bit-reversal copy back): with permut<degree>::compute translated from permut.hpp and proved to be the model's BR for every degree
    (PermSrc.permut_ok), the translated function returns  BR (F (BR x))  where F is what the translated core::ntt does to the first `degree`
    words of the scratch array.  The scratch array has degree+1 words; the transform theorems (C05_source_loops_all_builds) are stated for an
-   array of exactly `degree` words, so the statement is relative to the behaviour of the translated core::ntt on the longer array: it must
-   leave the extra word alone (hypothesis NTTpad below; not derived here -- see DESIGN.md, partial). *)
+   array of exactly `degree` words; Frame.v shows that the translated core::ntt of every build leaves the extra word alone (hypothesis NTTpad
+   below is discharged in InvNttAll.v). *)
 From Coq Require Import ZArith List Lia Bool Arith.
 From NTT Require Import Algebra Rev Inverse Permut CxxSem MemSem LoopSpec LoopRun PermSem PermSrc.
 From NTT.gen Require Import GenPerm GenLoop.
@@ -27,16 +27,19 @@ Hypothesis Hk : (S k0 <= 30)%nat.
 Hypothesis Hf : (S k0 < fuel)%nat.
 Hypothesis HF : forall v, length v = n -> length (F v) = n.
 (* the translated core::ntt on the (degree+1)-word scratch array: transforms the first degree words, leaves the last one *)
-Hypothesis NTTpad : forall v pad, length v = n -> length pad = 1%nat -> exists a b c, ntt (Z.of_nat n) (v ++ pad) 0 W 0 W' 0 p = Some ((F v ++ pad, a, b, c), true).
+Variable R : Z -> Prop.
+Hypothesis NTTpad : forall v pad, length v = n -> Forall R v -> length pad = 1%nat -> exists a b c, ntt (Z.of_nat n) (v ++ pad) 0 W 0 W' 0 p = Some ((F v ++ pad, a, b, c), true).
 
-Theorem inv_ntt_ok x y0 : length x = n -> length y0 = S n ->
+Lemma BR_Forall x : length x = n -> Forall R x -> Forall R (BR k0 x).
+Proof. intros Hx HR. unfold BR, tab. apply Forall_tab. intros j Hj. apply Forall_nth_R; [exact HR|]. rewrite Hx. apply rev_lt. Qed.
+Theorem inv_ntt_ok x y0 : length x = n -> Forall R x -> length y0 = S n ->
   inv fuel (Z.of_nat n) x 0 W 0 W' 0 invK p y0 = Some ((BR k0 (F (BR k0 x)), F (BR k0 x) ++ skipn n y0, 0, 0), true).
 Proof.
-  intros Hx Hy. rewrite Hinv. assert (Hn1 : (Z.of_nat n =? 1) = false).
+  intros Hx HRx Hy. rewrite Hinv. assert (Hn1 : (Z.of_nat n =? 1) = false).
   { apply Z.eqb_neq. rewrite pow2_Z. assert (2 ^ 1 <= 2 ^ Z.of_nat (S k0)) by (apply Z.pow_le_mono_r; lia). change (2 ^ 1) with 2 in *. lia. }
   rewrite Hn1. rewrite (permut_ok k0 fuel x y0 Hk Hf) by lia. cbn [bind].
   assert (Lp : length (skipn n y0) = 1%nat) by (rewrite skipn_length; lia).
-  destruct (NTTpad (BR k0 x) (skipn n y0) (BR_len k0 x) Lp) as (a & b & c & E). rewrite E. cbn [bind].
+  destruct (NTTpad (BR k0 x) (skipn n y0) (BR_len k0 x) (BR_Forall x Hx HRx) Lp) as (a & b & c & E). rewrite E. cbn [bind].
   rewrite (permut_ok k0 fuel (F (BR k0 x) ++ skipn n y0) x Hk Hf) by (rewrite ?app_length, ?HF by apply BR_len; lia). cbn [bind].
   rewrite BR_firstn by (apply HF; apply BR_len). rewrite skipn_all2 by lia. rewrite app_nil_r. reflexivity.
 Qed.
